@@ -367,3 +367,37 @@ def l10(ctx):
             ok = ok and total == lay[0]
         yield Ob(key_of("C16-L10", "%s::sealed::Header" % fl, "no-padding"), ok, "fields %s sum to %d bytes, size_of = %s" % (det, total, lay[0] if lay else "?"),
                  "%s:%s" % (a["file"], a["line"]) if a else None)
+
+
+@rule("C16-L11", "C16", 3, "lock_meta locks the header where the header is: with the plain layout the header lives in the Memory struct, not in the map, so nothing is "
+      "locked (locking size_of::<Header>() bytes at reserved + 1 fails the range check of a small map - construction is refused although the capacity holds the "
+      "prefix - and locks data bytes of a larger one); with the unified layout the locked range is the header's", configs=("memmap", "memmap-nooverflow", "memmap-tracing"))
+def l11(ctx):
+    A, S = ("align_of", "H"), ("size_of", "H")
+    b = ctx.facts.one(r"^memory::Memory::<R, PR, H>::map_anon::\{closure#0\}$")
+    U = ("field", ("upvar", "opts"), "unify")
+    for mode, val in (("plain", 0), ("unified", 1)):
+        ev, res = ctx.eval(b, no_inline=(r"::mlock$",), assume=((U, const(val)),))
+        locks = [e for e in res.log if e["kind"] == "call" and not e["chain"] and e["callee"].endswith("::mlock")]
+        if mode == "plain":
+            yield Ob(key_of("C16-L11", b.path, "plain-layout-locks-nothing"), not locks,
+                     "map_anon, plain layout: %s" % ("no mlock call is reachable" if not locks else "mlock(%s, %s) is reachable: the header is not in the map" %
+                                                      (short(locks[0]["args"][1], 50), short(locks[0]["args"][2], 30))), ctx.loc(locks[0]) if locks else b.loc())
+        else:
+            ok = bool(locks)
+            for e in locks:
+                off, ln = canon(e["args"][1]), canon(e["args"][2])
+                want = [a for a in as_lin(off).m if tag(a) == "alignUp"]
+                ok = ok and len(want) == 1 and term_eq(off, add(add(want[0], A), const(0))) and term_eq(ln, S)
+            yield Ob(key_of("C16-L11", b.path, "unified-layout-locks-the-header"), ok,
+                     "map_anon, unified layout: %d mlock call(s), range %s" % (len(locks), [(short(e["args"][1], 60), short(e["args"][2], 20)) for e in locks][:2]), ctx.loc(locks[0]) if locks else b.loc())
+    for name in ("map_mut_in", "map_in"):
+        cl = ctx.facts.one(r"^memory::Memory::<R, PR, H>::%s::\{closure#0\}$" % name)
+        ev, res = ctx.eval(cl, no_inline=(r"::mlock$",))
+        locks = [e for e in res.log if e["kind"] == "call" and not e["chain"] and e["callee"].endswith("::mlock")]
+        ok = True
+        for e in locks:
+            off, ln = canon(e["args"][1]), canon(e["args"][2])
+            want = [a for a in as_lin(off).m if tag(a) == "alignUp"]
+            ok = ok and len(want) == 1 and term_eq(off, add(want[0], A)) and term_eq(ln, S)
+        yield Ob(key_of("C16-L11", cl.path, "file-layout-locks-the-header"), ok, "%s (always unified): %d mlock call(s) on the header range" % (name, len(locks)), cl.loc(), trivial=not locks)
